@@ -42,28 +42,34 @@ def parseObjective : List Tok → PRes (ObjKind × PExp × List Tok)
     else .error .reject
   | _ => .error .reject
 
-/-- `constraint` without iteration, and `parse_constraint` -/
-def parseConstraint (toks : List Tok) : PRes (PConstraint × List Tok) :=
-  let named : Option CName × List Tok :=
-    match toks with
-    | .word w :: .colon :: r => if isKeyword w then (none, toks) else (some (.plain w), skipNl r)
-    | _ => (none, toks)
-  match expAt named.2 with
+/-- `constraint_name = { variable ~ ":" ~ nl* }` (optional) -/
+def constraintName : List Tok → Option CName × List Tok
+  | .word w :: .colon :: r => if isKeyword w then (none, .word w :: .colon :: r) else (some (.plain w), skipNl r)
+  | toks => (none, toks)
+
+/-- `tagged_exp ~ (comparison ~ tagged_exp)?` and `parse_constraint` (a constraint without comparison is the
+logic assertion `lhs = true`) -/
+def constraintBody (name : Option CName) (toks : List Tok) : PRes (PConstraint × List Tok) :=
+  match expAt toks with
   | .error e => .error e
   | .ok (lhs, r1) =>
     let assertion : PRes (PConstraint × List Tok) :=
-      .ok ({ name := named.1, lhs := lhs, cmp := .eq, rhs := .bool true, logic := true, iterVars := [], iters := [] }, r1)
+      .ok ({ name := name, lhs := lhs, cmp := .eq, rhs := .bool true, logic := true, iterVars := [], iters := [] }, r1)
     match r1 with
     | tk :: r2 =>
       match cmpOfTok tk with
       | some c =>
         match expAt r2 with
         | .ok (rhs, r3) =>
-          .ok ({ name := named.1, lhs := lhs, cmp := c, rhs := rhs, logic := false, iterVars := [], iters := [] }, r3)
+          .ok ({ name := name, lhs := lhs, cmp := c, rhs := rhs, logic := false, iterVars := [], iters := [] }, r3)
         | .error .reject => assertion
         | .error e => .error e
       | none => assertion
     | [] => assertion
+
+/-- `constraint` without iteration -/
+def parseConstraint (toks : List Tok) : PRes (PConstraint × List Tok) :=
+  constraintBody (constraintName toks).1 (constraintName toks).2
 
 /-- `constraint_list = { (constraint ~ (nl* ~ constraint)*)? }` -/
 def parseConstraints : Nat → List Tok → List PConstraint → PRes (List PConstraint × List Tok)
@@ -172,6 +178,30 @@ def parseDomains : Nat → List Tok → List PDomain → PRes (List PDomain × L
       | .error e => .error e
     | none => .ok (acc, toks)
 
+/-- `(nl+ ~ ^"define" ~ domains_declaration)? ~ nl* ~ EOI` -/
+def parseDefineEnd (t6 : List Tok) (kind : ObjKind) (obj : PExp) (cs : List PConstraint) (consts : List (String × PExp)) :
+    PRes PModel :=
+  let df : PRes (List PDomain × List Tok) :=
+    match needNl t6 with
+    | some (.word w :: r) => if lowerWord w == "define" then parseDomains (r.length + 1) r [] else .ok ([], t6)
+    | _ => .ok ([], t6)
+  match df with
+  | .error e => .error e
+  | .ok (doms, t7) =>
+    match skipNl t7 with
+    | [] => .ok { objKind := kind, objective := obj, constraints := cs, constants := consts, domains := doms }
+    | _ => .error .reject
+
+/-- `(nl+ ~ ^"where" ~ consts_declaration)? ~ (nl+ ~ ^"define" ~ domains_declaration)? ~ nl* ~ EOI` -/
+def parseDecls (t5 : List Tok) (kind : ObjKind) (obj : PExp) (cs : List PConstraint) : PRes PModel :=
+  let wh : PRes (List (String × PExp) × List Tok) :=
+    match needNl t5 with
+    | some (.word w :: r) => if lowerWord w == "where" then parseConsts (r.length + 1) r [] else .ok ([], t5)
+    | _ => .ok ([], t5)
+  match wh with
+  | .error e => .error e
+  | .ok (consts, t6) => parseDefineEnd t6 kind obj cs consts
+
 /-- `problem` and `parse_problem` -/
 def parseProgram (toks : List Tok) : PRes PModel :=
   match parseObjective (skipNl toks) with
@@ -184,24 +214,7 @@ def parseProgram (toks : List Tok) : PRes PModel :=
       | some t4 =>
         match parseConstraints (t4.length + 1) t4 [] with
         | .error e => .error e
-        | .ok (cs, t5) =>
-          let wh : PRes (List (String × PExp) × List Tok) :=
-            match needNl t5 with
-            | some (.word w :: r) => if lowerWord w == "where" then parseConsts (r.length + 1) r [] else .ok ([], t5)
-            | _ => .ok ([], t5)
-          match wh with
-          | .error e => .error e
-          | .ok (consts, t6) =>
-            let df : PRes (List PDomain × List Tok) :=
-              match needNl t6 with
-              | some (.word w :: r) => if lowerWord w == "define" then parseDomains (r.length + 1) r [] else .ok ([], t6)
-              | _ => .ok ([], t6)
-            match df with
-            | .error e => .error e
-            | .ok (doms, t7) =>
-              match skipNl t7 with
-              | [] => .ok { objKind := kind, objective := obj, constraints := cs, constants := consts, domains := doms }
-              | _ => .error .reject
+        | .ok (cs, t5) => parseDecls t5 kind obj cs
     | _ => .error .reject
 
 inductive ProgRes where
